@@ -9,7 +9,7 @@ PROPS = {
         targets=["c02_cycle", "c02_cycle_block"],
         level="exploration",
         rule="tape-decoded cases: SPD irreducibly diagonally dominant M-matrix (vf::gen_graph 10 families + vf::gen_mmat, contrast <= 100, optional grid anisotropy, "
-             "n <= 200 quick) x one hierarchy amg<builtin<double>, runtime coarsening wrapper, runtime relaxation wrapper> (4 coarsenings x 9 relaxations; ncycle 1..2, npre/npost 1..3, "
+             "n <= 200 quick) x one hierarchy amg<builtin<double>, runtime coarsening wrapper, runtime relaxation wrapper> (4 coarsenings x 9 relaxations; ncycle 1..2, npre/npost 0..3 with npre + npost >= 1 (V/W(0,nu) and V/W(nu,0) cycles included), "
              "pre_cycles 1..2, coarse_enough / max_levels / direct_coarse variations, component parameters in documented ranges). B = [apply(e_1) .. apply(e_n)]. Asserted per case: "
              "history independence (apply(f) bitwise equal before/after n unrelated applies, dirty output vector), linearity (apply(a f + b g) vs a B f + b B g, "
              "<= 32 (16 + n + kappa_2(A)) u ||B||_F (|a|||f||+|b|||g||)), scaling 2^k B(2^k A) == B(A) bitwise for k in [-20,20] (all relaxations but ILUT); for the symmetric smoother list "
